@@ -116,11 +116,11 @@ fn auth_plan(thorough: bool) -> Plan {
         } else {
             a.push(halt(&admin));
         }
-        if s.w.ibc.next_seq <= 6 && s.w.bal(&u(1), &sd()) >= 100 {
+        if s.w.ibc.next_seq <= 6 + s.g.seed_seq && s.w.bal(&u(1), &sd()) >= 100 {
             a.push(stake(&u(1), 100));
         }
         let l = s.w.bal(&u(1), &s.w.lst_denom());
-        if l >= 30 && s.m.batches.len() <= 2 {
+        if l >= 30 && s.m.batches.len() as u64 <= 2 + s.g.seed_batches {
             a.push(unstake(s, &u(1), 30));
         }
         let pd = pending_due(s);
@@ -136,7 +136,7 @@ fn auth_plan(thorough: bool) -> Plan {
             }
         }
         a.push(submit(&p20("x")));
-        if s.w.ibc.next_seq <= 6 {
+        if s.w.ibc.next_seq <= 6 + s.g.seed_seq {
             a.push(rewards(s, 50));
         }
         a
@@ -285,6 +285,8 @@ fn hostile_plans(thorough: bool) -> Vec<Plan> {
         if k.fee <= 100_000 {
             // (a fee rate above 100 % refuses every reward, so the reward-based seeds do not exist there)
             seeds.push((format!("{}/rate_up", k.name), trim(|| seed_rate_up(&k), 120)));
+            seeds.push((format!("{}/ten_batches", k.name), trim(|| seed_ten_batches(&k), 120)));
+            seeds.push((format!("{}/mid_received", k.name), trim(|| seed_mid_received(&k), 120)));
             seeds.push((format!("{}/received", k.name), trim(|| seed_received(&k), 120)));
             seeds.push((format!("{}/rate_down", k.name), trim(|| seed_rate_down(&k), 120)));
             seeds.push((format!("{}/sweep", k.name), trim(|| seed_sweep(&k), 120)));
